@@ -336,3 +336,91 @@ Example C04_example_caller :
   map (caller_handed 4 true) (r_log (serve 4 cfg (mkState [7; 8] false) env (concat (map frame_bytes fs))))
   = [Some None; Some (Some (13, [9;8;7]))].
 Proof. vm_compute. reflexivity. Qed.
+
+(* STAGES OF A SESSION (round 10).  A client that negotiates versions is not "ready" while its GetSupportedVersion /
+   SetProtocolVersion exchange is going on; the property has no such stage: "every message the reader sends is delivered
+   exactly once to each party entitled to it".  [serve_staged gated stop maxbuf cfg neg st env] (Client/Stream.v) is the
+   read loop with the stage made explicit — [neg i]: the client is still negotiating when the i-th header is read, an
+   ARBITRARY placement of the stages over the stream — and gated = stop = false is the tree as found (it is [serve]:
+   StreamProofs.serve_staged_faithful).  For every limit, configuration, placement of the stages, awaiting state,
+   environment, frames and continuation: the frames are dispatched exactly as specified ([expected_log]: hence
+   C04_dispatch_exactly_once / C04_caller_exact_bytes_or_error apply to every stage), and the loop goes on behind them. *)
+Theorem C04_delivery_whatever_the_stage :
+  forall (maxbuf : N) (cfg : config) (neg : nat -> bool) (fs : list frame) (st : state)
+         (env : nat -> env_step) (rest : list byte),
+  Forall frame_wf fs ->
+  serve_staged false false maxbuf cfg neg st env (concat (map frame_bytes fs) ++ rest)
+  = prepend (expected_log maxbuf cfg st env O fs)
+            (serve_from maxbuf cfg (state_after cfg st env O fs) env (length fs) rest).
+Proof. exact serve_staged_alignment. Qed.
+Print Assumptions C04_delivery_whatever_the_stage.
+
+(* FALSE for the loop whose user handlers are eligible only once the client is ready (gated = true): a report (type 61,
+   which has a MessageHandler) that arrives while the client negotiates is discarded as unhandled — its handler is never
+   called —, where the tree as found calls the handler with exactly its bytes; on a ready client the two agree (which is
+   why only scenarios that place messages INSIDE the negotiation can tell them apart). *)
+Theorem C04_delivery_whatever_the_stage_refuted :
+  exists maxbuf cfg f st env (negotiating ready : nat -> bool),
+  frame_wf f /\ pick_handler cfg (f_typ f) = Some TypeHandler /\
+  r_log (serve_staged true false maxbuf cfg negotiating st env (frame_bytes f))
+  <> expected_log maxbuf cfg st env O [f] /\
+  map (fun d => (d_handler d, d_discarded d)) (r_log (serve_staged true false maxbuf cfg negotiating st env (frame_bytes f)))
+  = [(None, true)] /\
+  map (fun d => (d_handler d, d_discarded d)) (r_log (serve_staged false false maxbuf cfg negotiating st env (frame_bytes f)))
+  = [(Some (mkCall TypeHandler false (f_payload f) (len (f_payload f)) false), false)] /\
+  serve_staged true false maxbuf cfg ready st env (frame_bytes f) = serve_staged false false maxbuf cfg ready st env (frame_bytes f).
+Proof.
+  destruct wit_gated_handlers_drop_early_message as [Hwf [Hg [Hf Hr]]].
+  exists 100, (mkConfig (fun t => t =? 61) false reader_initiated), (mkFrame 0 2 61 77 [222; 173; 190]), st0,
+         (fun _ : nat => mkEnv [] (HRead 3) false), (fun _ : nat => true), (fun _ : nat => false).
+  split; [exact Hwf|]. split; [reflexivity|]. split; [vm_compute; discriminate|].
+  split; [exact Hg|]. split; [exact Hf|exact Hr].
+Qed.
+Print Assumptions C04_delivery_whatever_the_stage_refuted.
+
+(* A REFUSED CLOSE (round 10).  The client has sent CloseConnection (e_close_sent) and the reader answers with a
+   CloseConnectionResponse [ccr] — whatever its status: a reader that refuses keeps the connection (Shutdown returns the
+   refusal, the client stays open) and goes on sending fs2.  For every limit, configuration, stage placement, state,
+   environment, and all frames before and behind the response: the log is the specified dispatch of everything up to and
+   including the response followed by the specified dispatch of EVERYTHING behind it, from the state the response left —
+   the messages behind a close response are delivered like any others, each parsed at its own first byte.  (After an
+   ACCEPTED close the client closes itself; the model has no user Close and nothing is demanded there.) *)
+Theorem C04_delivery_after_close_response :
+  forall (maxbuf : N) (cfg : config) (neg : nat -> bool) (fs1 : list frame) (ccr : frame) (fs2 : list frame)
+         (st : state) (env : nat -> env_step),
+  Forall frame_wf (fs1 ++ ccr :: fs2) ->
+  r_log (serve_staged false false maxbuf cfg neg st env (concat (map frame_bytes (fs1 ++ ccr :: fs2))))
+  = expected_log maxbuf cfg st env O (fs1 ++ [ccr])
+    ++ expected_log maxbuf cfg (state_after cfg st env O (fs1 ++ [ccr])) env (length fs1 + 1) fs2.
+Proof. exact serve_after_close_response. Qed.
+Print Assumptions C04_delivery_after_close_response.
+
+(* FALSE for the loop that stops reading once it has dispatched the answer to its CloseConnection (stop = true): the
+   reader refuses (status 401) and then sends a report; the report is never dispatched, its bytes stay unread; the tree as
+   found dispatches both. *)
+Theorem C04_delivery_after_close_response_refuted :
+  exists maxbuf cfg neg ccr rep st env,
+  Forall frame_wf [ccr; rep] /\ f_typ ccr = MsgCloseConnectionResponse /\ e_close_sent (env O) = true /\
+  map d_hdr (r_log (serve_staged false true maxbuf cfg neg st env (concat (map frame_bytes [ccr; rep])))) = [frame_header ccr] /\
+  r_rest (serve_staged false true maxbuf cfg neg st env (concat (map frame_bytes [ccr; rep]))) = frame_bytes rep /\
+  map d_hdr (r_log (serve_staged false false maxbuf cfg neg st env (concat (map frame_bytes [ccr; rep]))))
+  = [frame_header ccr; frame_header rep].
+Proof.
+  destruct wit_stop_at_close_loses_later_messages as [Hwf [H1 [H2 H3]]].
+  exists 100, (mkConfig (fun t => t =? 61) false reader_initiated), (fun _ : nat => false),
+         (mkFrame 0 1 4 0 [1; 31; 0; 8; 1; 145; 0; 0]), (mkFrame 0 1 61 41 [202; 254]), st0,
+         (fun _ : nat => mkEnv [0] (HRead 2) true).
+  split; [exact Hwf|]. split; [reflexivity|]. split; [reflexivity|]. split; [exact H1|]. split; [exact H2|exact H3].
+Qed.
+Print Assumptions C04_delivery_after_close_response_refuted.
+
+(* non-vacuity of the two round-10 theorems: a negotiating stretch (headers 0 and 1), a refused close in the middle *)
+Example C04_example_stages_and_close :
+  let cfg := mkConfig (fun t => t =? 61) true reader_initiated in
+  let env := fun _ : nat => mkEnv [] (HRead 1) true in
+  let neg := fun i => Nat.ltb i 2 in
+  let fs := [mkFrame 0 2 61 5 [1; 2]; mkFrame 0 1 4 0 [1; 31; 0; 8; 1; 145; 0; 0]; mkFrame 0 1 30 6 [3]] in
+  Forall frame_wf fs /\
+  map d_hdr (r_log (serve_staged false false 100 cfg neg (mkState [0] false) env (concat (map frame_bytes fs))))
+  = map frame_header fs.
+Proof. cbv zeta. split; [repeat constructor; vm_compute; reflexivity|vm_compute; reflexivity]. Qed.
